@@ -44,6 +44,13 @@ func init() { Registry["C01"] = c01 }
 // place; the deferred write-out may be a method of a struct of the captured variables. Mutants
 // re-tried: helper that never strips → R-C01-6; method flag set on a path mismatch in searchRule
 // → R-C01-4.
+//
+// Round-4 seeded change C01/g (one per-header helper with the any-mode semantics called by both
+// modes): R-C01-9 follows the header value handed straight to a helper, and R-C01-11 (c01_ext.go)
+// states how the two modes combine the value-list test and the expression test, all paths, helpers
+// interpreted in place. Same kind, also reported: all-mode skipping the expression when the value is
+// in the list; any-mode demanding both; final answer not matchAllHeader. One helper taking the mode,
+// or two helpers (satisfiedBy / matchedBy), stay silent.
 func c01(c *core.Ctx) string {
 	c.Rule("R-C01-1", "success-return gate: every (uncached) return of a success route for path p is reached only with host-match, path-match, method-match true and (p has no header conditions or header-match true), all established in the current iteration")
 	c.Rule("R-C01-2", "first match: the search ranges over rules then paths in index order; loop variables are not reassigned; no goto / goroutine; the success return is inside the inner loop")
@@ -62,6 +69,7 @@ func c01(c *core.Ctx) string {
 	muxBuildChecks(c, "", "R-C01-7")
 	c01Rewrite(c)
 	c01HeaderValue(c)
+	c01HeaderModes(c)
 	c01PathValue(c)
 	c01LookupFirst(c)
 	return "Path-sensitive analysis of muxInstance.search (all paths, disjunctive states): success returns are gated by the four matchers of the current entry, mismatches never end the search, and the 400>405>404 table holds at the exits as a function of sticky mismatch events (independent of how the implementation stores the flags); serveHTTP dispatches only a found backend after rewrite; the host matcher strips the port via net.SplitHostPort. Not decided: value semantics of matching and rewriting."
